@@ -27,7 +27,7 @@ class Stock(Element):
         self.__initial_value = 0.0
 
     def default_function_string(self):
-        return "lambda model, t : ( (0) if (t <= model.starttime) else (model.memoize('{}',t-model.dt)) )".format(self.name)
+        return "lambda model, t : ( (0) if (t <= model.starttime) else (model.memoize({},t-model.dt)) )".format(repr(str(self.name)))
 
     @property
     def initial_value(self):
@@ -69,7 +69,7 @@ class Stock(Element):
     def build_function_string(self):
         start_string = "lambda model, t : ( ("
         start_string += str(self.__initial_value) + \
-            ") if (t <= model.starttime) else (model.memoize('{}',t-model.dt))".format(self.name)
+            ") if (t <= model.starttime) else (model.memoize({},t-model.dt))".format(repr(str(self.name)))
 
         if self.equation is not None:
             start_string += "+ model.dt*("
